@@ -8,7 +8,7 @@ open Wz Wz.Gen.Debugger
 
 /-! ### reading the generated table -/
 
-/-- one point of the property's product, decoded from its position in `outcomes` -/
+/-- one point of the property's product -/
 structure Point where
   cmd : Nat
   sec : Nat
@@ -18,52 +18,76 @@ structure Point where
   evalex : Bool
   pinOn : Bool
 
-def dim (k : Nat) : Nat := dims.getD k 1
+/-- the point stored as hex digit `j` of packed row `idx` (mixed-radix order of `Gen.Debugger.dims`) -/
+def pointAt (idx j : Nat) : Point :=
+  { cmd := idx / (nSec * nHost), sec := (idx / nHost) % nSec, host := idx % nHost,
+    cookie := j / (nFrame * 4), frame := (j / 4) % nFrame, evalex := (j / 2) % 2 == 0, pinOn := j % 2 == 0 }
 
-/-- mixed-radix decoding in the order of `Gen.Debugger.dims` (last dimension fastest) -/
-def pointOf (i : Nat) : Point :=
-  let pin := i % dim 6
-  let i := i / dim 6
-  let ev := i % dim 5
-  let i := i / dim 5
-  let fr := i % dim 4
-  let i := i / dim 4
-  let ck := i % dim 3
-  let i := i / dim 3
-  let ho := i % dim 2
-  let i := i / dim 2
-  let se := i % dim 1
-  let i := i / dim 1
-  { cmd := i, sec := se, host := ho, cookie := ck, frame := fr, evalex := ev == 0, pinOn := pin == 0 }
+/-- observed outcome at that point -/
+def outcomeAt (idx j : Nat) : Nat := (rows.getD idx 15 / 16 ^ j) % 16
 
-def hostRow (p : Point) : Option (List Char) × Nat × Nat := hosts.getD p.host (none, 1, 0)
 /-- class of the point's Host by the property text: 0 trusted, 1 must never be accepted, 2 case variant -/
-def hostClass (p : Point) : Nat := (hostRow p).2.1
+def hostClass (p : Point) : Nat := hostClasses.getD p.host 1
 /-- the live `host_is_trusted` verdict for the point's Host: 1 True, 0 False, 2 raised -/
-def hostVerdict (p : Point) : Nat := (hostRow p).2.2
+def hostVerdict (p : Point) : Nat := hostVerdicts.getD p.host 2
 
-def checkAll (f : Nat → Nat → Bool) : Nat → List Nat → Bool
-  | _, [] => true
-  | i, o :: rest => f i o && checkAll f (i + 1) rest
+/-- a predicate on (row index, digit index, outcome) -/
+abbrev PointPred := Nat → Nat → Nat → Bool
 
-theorem checkAll_get (f : Nat → Nat → Bool) : ∀ (l : List Nat) (k : Nat), checkAll f k l = true →
-    ∀ i (h : i < l.length), f (k + i) l[i] = true := by
+def checkInner (Q : Nat → Nat → Bool) (n : Nat) : Nat → Bool
+  | 0 => true
+  | k + 1 => Q k ((n / 16 ^ k) % 16) && checkInner Q n k
+
+/-- recursion on the literal fuel `k` keeps every index a literal for the kernel -/
+def checkRows (P : PointPred) (total : Nat) : List Nat → Nat → Bool
+  | [], _ => true
+  | _ :: _, 0 => false
+  | n :: rest, k + 1 => checkInner (P (total - (k + 1))) n rowLen && checkRows P total rest k
+
+/-- `P` holds at every point of the live table -/
+def checkTable (P : PointPred) : Bool := checkRows P nRows rows nRows
+
+theorem checkInner_get (Q : Nat → Nat → Bool) (n : Nat) : ∀ m, checkInner Q n m = true →
+    ∀ j, j < m → Q j ((n / 16 ^ j) % 16) = true := by
+  intro m
+  induction m with
+  | zero => intro _ j h; omega
+  | succ m ih =>
+    intro hc j hj
+    simp only [checkInner, Bool.and_eq_true] at hc
+    by_cases h : j = m
+    · subst h; exact hc.1
+    · exact ih hc.2 j (by omega)
+
+theorem checkRows_get (P : PointPred) (total : Nat) : ∀ (l : List Nat) (k : Nat),
+    checkRows P total l k = true → l.length = k → k ≤ total →
+    ∀ i (h : i < l.length) j, j < rowLen → P (total - k + i) j ((l[i] / 16 ^ j) % 16) = true := by
   intro l
   induction l with
-  | nil => intro k _ i h; simp at h
-  | cons o rest ih =>
-    intro k hc i h
-    simp only [checkAll, Bool.and_eq_true] at hc
-    cases i with
-    | zero => simpa using hc.1
-    | succ j =>
-      have := ih (k + 1) hc.2 j (by simpa using h)
-      simpa [Nat.add_assoc, Nat.add_comm 1 j] using this
+  | nil => intro k _ _ _ i h; simp at h
+  | cons n rest ih =>
+    intro k hc hl hk i hi j hj
+    cases k with
+    | zero => simp at hl
+    | succ k =>
+      simp only [checkRows, Bool.and_eq_true] at hc
+      cases i with
+      | zero =>
+        have := checkInner_get _ n rowLen hc.1 j hj
+        simpa using this
+      | succ i =>
+        have := ih k hc.2 (by simpa using hl) (by omega) i (by simpa using hi) j hj
+        have e : total - (k + 1) + (i + 1) = total - k + i := by omega
+        rw [e]; simpa using this
 
-theorem checkAll_outcomes {f : Nat → Nat → Bool} (hc : checkAll f 0 outcomes = true)
-    (i : Nat) (h : i < outcomes.length) : f i outcomes[i] = true := by
-  have := checkAll_get f outcomes 0 hc i h
-  simpa using this
+theorem checkTable_get {P : PointPred} (hc : checkTable P = true) (hlen : rows.length = nRows)
+    (idx j : Nat) (hi : idx < nRows) (hj : j < rowLen) : P idx j (outcomeAt idx j) = true := by
+  have := checkRows_get P nRows rows nRows hc hlen (Nat.le_refl _) idx (by omega) j hj
+  simp only [Nat.sub_self, Nat.zero_add] at this
+  unfold outcomeAt
+  have hget : rows.getD idx 15 = rows[idx]'(by omega) := by
+    simp [List.getD, List.getElem?_eq_getElem (show idx < rows.length by omega)]
+  rw [hget]; exact this
 
 /-- the model's prediction for a table point, given the live Host verdict -/
 def modelOutcome (p : Point) : Nat :=
